@@ -8,7 +8,8 @@ Every method `m(self, args) -> None` of TLSServerProtocol and of TLSTransportWra
 over the record `pst` of coq/Equiv/TlsGlue.v (one field per attribute of the pump object, the asyncio-side flags and
 the state of the OpenSSL connection object, which is an oracle as in Model/TlsPump.v); a method `-> bool` that only
 reads becomes `gen_m (s__ : pst) : bool + exc`.  Calls of other methods of the two classes are calls of their
-translations (the call graph must be acyclic).  Each `while` loop becomes a separate definition `gen_m_loopN`, a
+translations (the call graph must be acyclic); gen_step / gen_run instantiate TlsGlue.loop_step / loop_run (the event
+loop's side, hand-written) with the three callbacks data_received, _handle_handshake_timeout, connection_lost.  Each `while` loop becomes a separate definition `gen_m_loopN`, a
 `fix` on explicit fuel that takes the enclosing exception handler and the `break` continuation as arguments.
 coq/Equiv/EquivTls.v states, and coq/Proofs/EquivTls_proofs.v proves, that the translated methods, with the oracle
 answering as in the model, ARE Model.TlsPump's `flush`, `wrapper_write`, `tstep` and `trun`.  The file is regenerated
@@ -545,6 +546,14 @@ Open Scope list_scope.
 
 """
 
+# which translated method is which asyncio callback (the loop's side is TlsGlue.loop_step / loop_run)
+DISPATCH = """(* the protocol's callbacks as asyncio dispatches them: data_received, the call_later callback, connection_lost *)
+Definition gen_step (fuel__ : nat) : pst -> pevent -> pres :=
+  loop_step (gen_data_received fuel__) (gen_%(timer)s fuel__) (gen_connection_lost fuel__).
+Definition gen_run (fuel__ : nat) : pst -> list pevent -> pres :=
+  loop_run (gen_data_received fuel__) (gen_%(timer)s fuel__) (gen_connection_lost fuel__).
+"""
+
 def main(out_path):
     tree = ast.parse(open(os.path.join(SRC, FILE)).read())
     ctx, nodes = analyse(tree)
@@ -568,6 +577,9 @@ def main(out_path):
     for k in nodes: visit(k)
     chunks = [HEADER, "Definition gen_handshake_timeout_ms : N := %d%%N.\n\n" % timeout_const(tree)]
     for k in order: chunks += [defs[k], "\n"]
+    for need in ("data_received", TIMER_CALLBACK, "connection_lost"):
+        if (PUMP, need) not in nodes: raise Untranslatable("callback %s is not translated" % need)
+    chunks.append(DISPATCH % {"timer": TIMER_CALLBACK.strip("_")})
     open(out_path, "w").write("".join(chunks))
     print("py2coq_tls: %d methods translated" % len(order))
 
